@@ -204,7 +204,9 @@ def run_shard(sh, tier, seed):
                     if nx is None:
                         exp = None
                         break
-                    improvement = loss_of(exp) - loss_of(nx)
+                    # the losses are float32 tensors in the implementation, and so is their difference: at the boundary
+                    # improvement == tol the comparison must be made on the float32 difference
+                    improvement = float(numpy.float32(loss_of(exp)) - numpy.float32(loss_of(nx)))
                     exp = nx
                     if improvement <= tol:
                         break
